@@ -66,15 +66,16 @@ var WriteHook func(name string, off int64, p []byte) []byte
 
 // End is one end of a link.
 type End struct {
-	id       int
-	name     string
-	peer     *End
-	buf      []byte
-	closed   bool
-	nread    int64
-	nwritten int64
-	local    string
-	remote   string
+	id        int
+	name      string
+	peer      *End
+	buf       []byte
+	closed    bool
+	nread     int64
+	nwritten  int64
+	zeroReads int
+	local     string
+	remote    string
 	// read deadline on the scheduler's virtual clock: rdTimer fires when virtual time reaches it (only when no
 	// thread can run, see csched.AddTimer) and sets rdExpired
 	rdTimer   *csched.Timer
@@ -144,11 +145,24 @@ func (e *End) Buffered() int { return len(e.buf) }
 // Counters returns bytes read and written at this end.
 func (e *End) Counters() (read, written int64) { return e.nread, e.nwritten }
 
+// ZeroReadLimit: consecutive zero-length reads after which Read returns ErrSpin.
+const ZeroReadLimit = 10000
+
+// ErrSpin is returned to a reader that spins on zero-length reads.
+var ErrSpin = errors.New("vnet: reader spins on zero-length reads (livelock)")
+
 // Read mirrors net.Conn.Read.
 func (e *End) Read(p []byte) (int, error) {
 	if len(p) == 0 {
+		// a reader that keeps asking for zero bytes never blocks and never progresses: after ZeroReadLimit such reads
+		// in a row the virtual transport reports the spin as an error instead of letting the execution run forever
+		e.zeroReads++
+		if e.zeroReads > ZeroReadLimit {
+			return 0, ErrSpin
+		}
 		return 0, nil
 	}
+	e.zeroReads = 0
 	csched.SchedPoint("read", e.id, func() bool { return len(e.buf) > 0 || e.closed || e.peer.closed || e.rdExpired })
 	if len(e.buf) == 0 {
 		if e.closed {
